@@ -56,6 +56,87 @@ spec fn decide_post<'a>(name: Name, e: Option<&'a Evaluated>, i: Option<&'a Inst
     ensures decide_post(*name, e, i, res),                                               // OBL:C03+C01+C02.compare.decide
 //@end
 
+// ---------- the whole Policies::<Evaluated>::compare pipeline ----------
+// HashMap<Name, T>: ghost map from name ids to values; iteration yields each key exactly once, in an arbitrary order
+pub struct NameMap<T> { pub m: Ghost<Map<u64, T>> }
+pub struct KeysIter { pub ids: Ghost<Seq<u64>> }
+pub struct NameSet { pub s: Ghost<Set<u64>> }
+pub struct NameIter { pub ids: Ghost<Seq<u64>> }
+pub struct FilterMapped<'a> { pub out: Ghost<Seq<Update<'a>>> }
+impl<T> NameMap<T> {
+    #[verifier::external_body]
+    pub fn keys(&self) -> (r: KeysIter) ensures forall|n: u64| #![trigger r.ids@.contains(n)] #![trigger self.m@.contains_key(n)] r.ids@.contains(n) <==> self.m@.contains_key(n) { unimplemented!() }
+    #[verifier::external_body]
+    pub fn get(&self, k: &Name) -> (r: Option<&T>)
+        ensures match r { Some(v) => self.m@.contains_key(k.id) && *v == self.m@[k.id], None => !self.m@.contains_key(k.id) }
+    { unimplemented!() }
+    #[verifier::external_body]
+    pub fn is_empty(&self) -> (r: bool) ensures r <==> (forall|n: u64| !self.m@.contains_key(n)) { unimplemented!() }
+}
+impl KeysIter {
+    #[verifier::external_body]
+    pub fn chain(self, other: KeysIter) -> (r: KeysIter) ensures forall|n: u64| #![trigger r.ids@.contains(n)] #![trigger self.ids@.contains(n)] #![trigger other.ids@.contains(n)] r.ids@.contains(n) <==> (self.ids@.contains(n) || other.ids@.contains(n)) { unimplemented!() }
+    #[verifier::external_body]
+    pub fn cloned(self) -> (r: KeysIter) ensures forall|n: u64| #![trigger r.ids@.contains(n)] #![trigger self.ids@.contains(n)] r.ids@.contains(n) <==> self.ids@.contains(n) { unimplemented!() }
+    // .collect::<HashSet<_>>()
+    #[verifier::external_body]
+    pub fn collect_set(self) -> (r: NameSet) ensures forall|n: u64| #![trigger r.s@.contains(n)] #![trigger self.ids@.contains(n)] r.s@.contains(n) <==> self.ids@.contains(n) { unimplemented!() }
+}
+impl NameSet {
+    #[verifier::external_body]
+    pub fn iter(&self) -> (r: NameIter) ensures forall|n: u64| #![trigger r.ids@.contains(n)] #![trigger self.s@.contains(n)] r.ids@.contains(n) <==> self.s@.contains(n) { unimplemented!() }
+}
+pub open spec fn produced_by<'a, F: Fn(&Name) -> Option<Update<'a>>>(f: F, ids: Seq<u64>, u: Update<'a>) -> bool {
+    exists|n: u64| ids.contains(n) && #[trigger] f.ensures((&Name { id: n },), Some(u))
+}
+pub open spec fn consumed_into<'a, F: Fn(&Name) -> Option<Update<'a>>>(f: F, id: u64, out: Seq<Update<'a>>) -> bool {
+    exists|o: Option<Update<'a>>| #[trigger] f.ensures((&Name { id },), o) && (o matches Some(u) ==> out.contains(u))
+}
+impl NameIter {
+    // Iterator::filter_map(f).  f is called once per element; its Some results are what comes out.
+    #[verifier::external_body]
+    pub fn filter_map<'a, F: Fn(&Name) -> Option<Update<'a>>>(self, f: F) -> (r: FilterMapped<'a>)
+        requires forall|n: u64| self.ids@.contains(n) ==> #[trigger] f.requires((&Name { id: n },)),
+        ensures
+            forall|j: int| 0 <= j < r.out@.len() ==> produced_by(f, self.ids@, #[trigger] r.out@[j]),
+            forall|n: u64| #[trigger] self.ids@.contains(n) ==> consumed_into(f, n, r.out@),
+    { unimplemented!() }
+}
+impl<'a> FilterMapped<'a> {
+    #[verifier::external_body]
+    pub fn collect(self) -> (r: Vec<Update<'a>>) ensures r@ == self.out@ { unimplemented!() }
+}
+//@item file=junos-agent/src/policies/mod.rs kind=struct name=Policies sub=/pub(crate) =>pub ;map: HashMap<Name, T>=>pub map: NameMap<T>/
+//@item file=junos-agent/src/policies/mod.rs kind=struct name=Updates sub=/pub(crate) =>pub ;inner:=>pub inner:/
+
+spec fn opt_ref<'a, T>(m: Map<u64, T>, n: u64) -> Option<&'a T> { if m.contains_key(n) { Some(&m[n]) } else { None } }
+// C01 / C03 at the level of the whole comparison: every installed policy that is no longer a candidate is deleted, and only those;
+// every update / delete that comes out is the one the per-name case split prescribes
+spec fn explained<'a>(ev: Map<u64, Evaluated>, inst: Map<u64, Installed>, u: Update<'a>) -> bool {
+    exists|n: u64| (ev.contains_key(n) || inst.contains_key(n)) && #[trigger] decide_post(Name { id: n }, opt_ref(ev, n), opt_ref(inst, n), Some(u))
+}
+spec fn deletes_unmanaged<'a>(ev: Map<u64, Evaluated>, inst: Map<u64, Installed>, out: Seq<Update<'a>>) -> bool {
+    forall|n: u64| #[trigger] inst.contains_key(n) && !ev.contains_key(n) ==> out.contains(Update::Delete { name: Name { id: n } })
+}
+spec fn all_explained<'a>(ev: Map<u64, Evaluated>, inst: Map<u64, Installed>, out: Seq<Update<'a>>) -> bool {
+    forall|j: int| 0 <= j < out.len() ==> explained(ev, inst, #[trigger] out[j])
+}
+
+impl Policies<Evaluated> {
+//@extract id=policies_compare file=junos-agent/src/policies/compare.rs impl=/impl Policies<Evaluated>/ fn=compare rules=R1,R17
+//@+ sub=/.collect::<HashSet<_>>()=>.collect_set()/
+//@sig fn compare<'a>(&'a self, installed: &'a Policies<Installed>) -> (res: Updates<'a>)
+//@contract
+        ensures
+            deletes_unmanaged(self.map.m@, installed.map.m@, res.inner@),                     // OBL:C01.compare.every_unmanaged_installed_policy_is_deleted
+            all_explained(self.map.m@, installed.map.m@, res.inner@),                         // OBL:C01+C03.compare.nothing_but_the_prescribed_updates
+//@closure 1
+                -> (r: Option<Update<'a>>)
+                requires self.map.m@.contains_key(name.id) || installed.map.m@.contains_key(name.id),
+                ensures decide_post(*name, opt_ref(self.map.m@, name.id), opt_ref(installed.map.m@, name.id), r)   // OBL:C03+C01+C02.compare.decide_in_pipeline
+//@end
+}
+
 // ---------- eval.rs: a failed evaluation is recorded as 'no ranges' ----------
 pub struct EvalError;
 pub struct PrefixSet<A: Afi> { pub _a: core::marker::PhantomData<A> }
